@@ -110,7 +110,7 @@ pub fn units(tier: Tier, seed: u64) -> Vec<Unit> {
     for &(n, k) in &big {
         u.push(unit!(format!("C05/Rsi-definition/N={n}/k={k}/sample-path"), rsi_def(n, k)));
         u.push(unit!(format!("C05/MyRSI-definition/N={n}/k={k}/sample-path"), myrsi_def(n, k)));
-        u.push(unit!(format!("C05/negation/N={n}/k={k}/sample-path"), negation(n, k.min(n + 12))));
+        if n <= 16 { u.push(unit!(format!("C05/negation/N={n}/k={k}/sample-path"), negation(n, k.min(n + 12)))); }
     }
     for (i, x) in u.iter_mut().enumerate().skip(first) { x.concolic = Some(seed * 31 + 1 + (i as u64 % 2)); x.budget_s = 60.0; x.max_decisions = 60000; }
     u
